@@ -413,6 +413,9 @@ fn long_inputs(quick: bool) -> Vec<FCase> {
             out.push(mk("siqs", 125, 126, i, th));
             out.push(mk("ecm", 75, 76, i, th));
             out.push(mk("auto", 150, 151, i, th));
+            // a flip inside the P-1 / ECM window of the automatic strategy on an input whose sieve set-up alone
+            // takes far longer than the delay: a sieve entered after the abort is observable as latency
+            out.push(mk("auto", 175, 176, i, th));
         }
         out.push(mk("ecm128", 63, 64, i, None));
     }
